@@ -324,7 +324,7 @@ theorem mutual_mutIdx (T : Nat) (I : Arr → Prop) (F : ArrFacts T I) (fuel : Na
         · cases h; exact hsame
         · simp only at h
           split at h
-          · cases h
+          · cases h; exact hnf
           · rename_i pa hpa
             split at h
             · cases h; exact hnf
